@@ -32,7 +32,7 @@ ASSUMPTIONS = [
     "rules written with whitespace-separated tokens (property precondition); rule blocks have an activation method",
     "readiness concerns the five operator kinds of the property; other causes of exceptions are outside its quantifier",
 ]
-FLOORS = {"C1": 6, "C1-raise": 5, "C1-deref": 6, "P9": 7, "C1-tok": 6}
+FLOORS = {"H5": 1, "C1": 6, "C1-raise": 5, "C1-deref": 6, "P9": 7, "C1-tok": 6}
 
 MARKERS = {
     "fuzzylite.rule.Rule.AND": "AND",
@@ -75,6 +75,11 @@ def run(check: Check) -> None:
 
     loaders.loader(check, "Consequent.load")  # a consequent that fails to load leaves nothing loaded behind (ready, then `expected a term`)
     c16.load_atomicity(check, only="Consequent.load")
+    from . import c13
+
+    # what the readiness check inspected is what the next step computes with: processing writes values and activations, never configuration
+    # (a defuzzifier that stores the type it inferred answers the next step with the type of the previous one - and raises on a term of another kind)
+    c13.step_state(check, reads=False)
 
 
 def runtime_sites(check: Check) -> None:
